@@ -28,6 +28,7 @@ let answer (toks : string list) : string =
     out_z (decimal_to_decimal (oc_of oc) (dty_of d1) (dty_of d2) (zz s1) (zz p2) (zz s2) (zz v))
   | ["sdd"; s1; p2; s2; v] -> out_z (rescale_spec (zz s1) (zz p2) (zz s2) (zz v))
   | ["fd"; oc; f; d; p; sc; bits] -> out_z (float_to_decimal (oc_of oc) (fty_of f) (dty_of d) (zz p) (zz sc) (zz bits))
+  | ["sfd"; f; p; sc; bits] -> out_z (float_decimal_spec (fty_of f) (zz p) (zz sc) (zz bits))
   | ["if"; f; v] -> "ok " ^ string_of_zz (int_to_float (fty_of f) (zz v))
   | ["ff"; s; d; bits] -> "ok " ^ string_of_zz (float_to_float (fty_of s) (fty_of d) (zz bits))
   | ["pi"; t; x] -> opt_z (parse_int (ity_of t) (bytes_of_x x))
